@@ -423,3 +423,228 @@ pub fn allowed_outputs(c: &Chain, hot: &[Vec<N>]) -> Option<Vec<Vec<N>>> {
   }
   Some(outs)
 }
+
+// ---------------------------------------------------------------------------
+// Two-input combinators on a merged timeline (C04)
+// ---------------------------------------------------------------------------
+
+/// Behaviours the documentation leaves open; the oracle accepts any of them.
+#[derive(Clone, Copy, Debug, Default, PartialEq, Eq, Hash)]
+pub struct Relax2 {
+  /// zip / combine_latest complete as soon as no further output is possible
+  pub early_complete: bool,
+  /// skip_until: a notifier that completes without an item opens the gate
+  pub empty_notifier_opens: bool,
+  /// buffer: completion of the notifier flushes and completes the output
+  pub buffer_notifier_complete_ends: bool,
+  /// take_until / skip_until: an error of the notifier is propagated
+  pub notifier_error_propagates: bool,
+  /// sample: a value not yet sampled is flushed when the source completes
+  pub sample_flush_on_source_complete: bool,
+  /// buffer: a tick with nothing gathered emits an empty buffer
+  pub buffer_emits_empty: bool,
+}
+
+pub fn relax2_variants() -> Vec<Relax2> {
+  let mut v = vec![];
+  for m in 0..64u32 {
+    v.push(Relax2 {
+      early_complete: m & 1 != 0,
+      empty_notifier_opens: m & 2 != 0,
+      buffer_notifier_complete_ends: m & 4 != 0,
+      notifier_error_propagates: m & 8 != 0,
+      sample_flush_on_source_complete: m & 16 != 0,
+      buffer_emits_empty: m & 32 != 0,
+    });
+  }
+  v
+}
+
+/// `timeline`: (input 0 = main/self, 1 = other/notifier, notification).
+/// Events of an input after that input's terminal are ignored (hot subjects
+/// drop them). Returns the output of `op`.
+pub fn two_input_model(op: &str, timeline: &[(usize, N)], rx: Relax2) -> Vec<N> {
+  let mut o = Out::new();
+  let mut ended = [false, false];
+  let mut completed = [false, false];
+  // operator state
+  let mut qa: Vec<V> = vec![];
+  let mut qb: Vec<V> = vec![];
+  let mut la: Option<V> = None;
+  let mut lb: Option<V> = None;
+  let mut ever = [false, false];
+  let mut gate_open = false; // skip_until
+  let mut buf: Vec<V> = vec![];
+  let mut stored: Option<V> = None; // sample
+  for (who, n) in timeline {
+    let who = *who;
+    if ended[who] || o.done {
+      continue;
+    }
+    if n.is_terminal() {
+      ended[who] = true;
+    }
+    match op {
+      "merge" => match n {
+        N::Next(v) => o.next(v.clone()),
+        N::Err(e) => o.error(*e),
+        N::Complete => {
+          completed[who] = true;
+          if completed[0] && completed[1] {
+            o.complete()
+          }
+        }
+      },
+      "zip" => {
+        match n {
+          N::Next(v) => {
+            if who == 0 {
+              qa.push(v.clone())
+            } else {
+              qb.push(v.clone())
+            }
+            if !qa.is_empty() && !qb.is_empty() {
+              let a = qa.remove(0);
+              let b = qb.remove(0);
+              o.next(V::p(a, b));
+            }
+          }
+          N::Err(e) => o.error(*e),
+          N::Complete => completed[who] = true,
+        }
+        if completed[0] && completed[1] {
+          o.complete()
+        } else if rx.early_complete
+          && ((completed[0] && qa.is_empty()) || (completed[1] && qb.is_empty()))
+        {
+          o.complete()
+        }
+      }
+      "combine_latest" => {
+        match n {
+          N::Next(v) => {
+            ever[who] = true;
+            if who == 0 {
+              la = Some(v.clone())
+            } else {
+              lb = Some(v.clone())
+            }
+            if let (Some(a), Some(b)) = (&la, &lb) {
+              o.next(V::p(a.clone(), b.clone()))
+            }
+          }
+          N::Err(e) => o.error(*e),
+          N::Complete => completed[who] = true,
+        }
+        if completed[0] && completed[1] {
+          o.complete()
+        } else if rx.early_complete
+          && ((completed[0] && !ever[0]) || (completed[1] && !ever[1]))
+        {
+          o.complete()
+        }
+      }
+      "with_latest_from" => match (who, n) {
+        (0, N::Next(v)) => {
+          if let Some(b) = &lb {
+            o.next(V::p(v.clone(), b.clone()))
+          }
+        }
+        (0, N::Complete) => o.complete(),
+        (1, N::Next(v)) => lb = Some(v.clone()),
+        (1, N::Complete) => {}
+        (_, N::Err(e)) => o.error(*e),
+        _ => {}
+      },
+      "take_until" => match (who, n) {
+        (0, N::Next(v)) => o.next(v.clone()),
+        (0, N::Complete) => o.complete(),
+        (0, N::Err(e)) => o.error(*e),
+        (1, N::Next(_)) => o.complete(),
+        (1, N::Err(e)) => {
+          if rx.notifier_error_propagates {
+            o.error(*e)
+          }
+        }
+        _ => {}
+      },
+      "skip_until" => match (who, n) {
+        (0, N::Next(v)) => {
+          if gate_open {
+            o.next(v.clone())
+          }
+        }
+        (0, N::Complete) => o.complete(),
+        (0, N::Err(e)) => o.error(*e),
+        (1, N::Next(_)) => gate_open = true,
+        (1, N::Complete) => {
+          if rx.empty_notifier_opens {
+            gate_open = true
+          }
+        }
+        (1, N::Err(e)) => {
+          if rx.notifier_error_propagates {
+            o.error(*e)
+          }
+        }
+        _ => {}
+      },
+      "sample" => match (who, n) {
+        (0, N::Next(v)) => stored = Some(v.clone()),
+        (0, N::Complete) => {
+          if rx.sample_flush_on_source_complete {
+            if let Some(v) = stored.take() {
+              o.next(v)
+            }
+          }
+          o.complete()
+        }
+        (1, N::Next(_)) | (1, N::Complete) => {
+          // documented: the sampler's completion also releases the pending value
+          if let Some(v) = stored.take() {
+            o.next(v)
+          }
+        }
+        (_, N::Err(e)) => o.error(*e),
+        _ => {}
+      },
+      "buffer" => match (who, n) {
+        (0, N::Next(v)) => buf.push(v.clone()),
+        (0, N::Complete) => {
+          if !buf.is_empty() {
+            o.next(V::L(std::mem::take(&mut buf)))
+          }
+          o.complete()
+        }
+        (1, N::Next(_)) => {
+          if !buf.is_empty() || rx.buffer_emits_empty {
+            o.next(V::L(std::mem::take(&mut buf)))
+          }
+        }
+        (1, N::Complete) => {
+          if rx.buffer_notifier_complete_ends {
+            if !buf.is_empty() {
+              o.next(V::L(std::mem::take(&mut buf)))
+            }
+            o.complete()
+          }
+        }
+        (_, N::Err(e)) => o.error(*e),
+        _ => {}
+      },
+      _ => panic!("two_input_model: unknown op {}", op),
+    }
+  }
+  o.v
+}
+
+pub fn two_input_allowed(op: &str, timeline: &[(usize, N)]) -> Vec<Vec<N>> {
+  let mut outs: Vec<Vec<N>> = vec![];
+  for rx in relax2_variants() {
+    let o = two_input_model(op, timeline, rx);
+    if !outs.contains(&o) {
+      outs.push(o)
+    }
+  }
+  outs
+}
